@@ -261,7 +261,7 @@ func runConcurrent(t *verifsim.Tape, cfg engine.Config) *engine.Outcome {
 					o.Violate("leak_invocations", "leak_invocations", "%s: service invoked %d times for this request", where, len(x.invoked))
 					continue
 				}
-				if diff := gen.Diff(gen.Expected(d, x.payload, orNil(x.m.Payload)), x.invoked[0].got, ""); diff != "" {
+				if diff := gen.Diff(expectedPayload(d, x.m, x.payload), x.invoked[0].got, ""); diff != "" {
 					o.Violate("leak_payload", "leak_payload", "%s: the service saw a payload that is not this request's: %s\n  sent     %s\n  received %s", where, diff, gen.Show(x.payload), gen.Show(x.invoked[0].got))
 				}
 				if x.m.Result != nil {
